@@ -329,6 +329,21 @@ pub fn drop_scan_box<T>(b: Box<T>) -> DropScan {
     DropScan { before, after }
 }
 
+/// XOR `mask` into the raw storage of `*this` at byte offset `off` (liveness probe of C17:
+/// does flipping these bytes change what the object does?). Native builds only.
+pub fn poke_raw<T>(this: &mut T, off: usize, mask: &[u8]) {
+    let n = core::mem::size_of::<T>();
+    assert!(off + mask.len() <= n, "harness: poke outside the object");
+    let p = this as *mut T as *mut u8;
+    for (i, m) in mask.iter().enumerate() {
+        // SAFETY: inside the object's own allocation; only called on plain-data secret bytes
+        unsafe {
+            let q = p.add(off + i);
+            core::ptr::write_volatile(q, core::ptr::read_volatile(q) ^ m);
+        }
+    }
+}
+
 fn chunks<N: cipher::array::ArraySize>(b: &[u8]) -> &[Array<u8, N>] {
     let (c, r) = Array::<u8, N>::slice_as_chunks(b);
     assert!(r.is_empty(), "harness: piece is not a whole number of blocks");
@@ -365,6 +380,7 @@ pub trait BlkObj: Send {
     /// `AsyncStreamCipher` one-shot; None = the type does not offer it. Some(false) = Err.
     fn oneshot(self: Box<Self>, form: Form, inp: &[u8], out: &mut [u8]) -> Option<bool>;
     fn drop_scan(self: Box<Self>) -> DropScan;
+    fn poke(&mut self, off: usize, mask: &[u8]);
 }
 
 pub struct EncAd<M> {
@@ -557,6 +573,9 @@ where
     fn drop_scan(self: Box<Self>) -> DropScan {
         drop_scan_box(self)
     }
+    fn poke(&mut self, off: usize, mask: &[u8]) {
+        poke_raw(self, off, mask)
+    }
 }
 
 impl<M> BlkObj for DecAd<M>
@@ -645,6 +664,9 @@ where
     }
     fn drop_scan(self: Box<Self>) -> DropScan {
         drop_scan_box(self)
+    }
+    fn poke(&mut self, off: usize, mask: &[u8]) {
+        poke_raw(self, off, mask)
     }
 }
 
@@ -748,6 +770,7 @@ pub trait BufObj: Send {
     fn debug_alt(&self) -> String;
     fn alg_name(&self) -> String;
     fn drop_scan(self: Box<Self>) -> DropScan;
+    fn poke(&mut self, off: usize, mask: &[u8]);
 }
 
 pub struct BufEncAd<C: cipher::BlockCipherEncrypt>(cfb_mode::BufEncryptor<C>);
@@ -779,6 +802,9 @@ where
     fn drop_scan(self: Box<Self>) -> DropScan {
         drop_scan_box(self)
     }
+    fn poke(&mut self, off: usize, mask: &[u8]) {
+        poke_raw(self, off, mask)
+    }
 }
 impl<C> BufObj for BufDecAd<C>
 where
@@ -805,6 +831,9 @@ where
     }
     fn drop_scan(self: Box<Self>) -> DropScan {
         drop_scan_box(self)
+    }
+    fn poke(&mut self, off: usize, mask: &[u8]) {
+        poke_raw(self, off, mask)
     }
 }
 
@@ -870,6 +899,7 @@ pub trait StreamObj: Send {
     fn core_debug(&self) -> String;
     fn alg_name(&self) -> String;
     fn drop_scan(self: Box<Self>) -> DropScan;
+    fn poke(&mut self, off: usize, mask: &[u8]);
 }
 
 pub struct StreamAd<T: StreamCipherCore> {
@@ -970,6 +1000,9 @@ where
     }
     fn drop_scan(self: Box<Self>) -> DropScan {
         drop_scan_box(self)
+    }
+    fn poke(&mut self, off: usize, mask: &[u8]) {
+        poke_raw(self, off, mask)
     }
 }
 
@@ -1157,6 +1190,7 @@ pub trait CoreObj: Send {
     fn debug_alt(&self) -> String;
     fn alg_name(&self) -> String;
     fn drop_scan(self: Box<Self>) -> DropScan;
+    fn poke(&mut self, off: usize, mask: &[u8]);
 }
 
 pub struct CoreAd<T: StreamCipherCore> {
@@ -1254,6 +1288,9 @@ where
     }
     fn drop_scan(self: Box<Self>) -> DropScan {
         drop_scan_box(self)
+    }
+    fn poke(&mut self, off: usize, mask: &[u8]) {
+        poke_raw(self, off, mask)
     }
 }
 
